@@ -16,7 +16,7 @@ use crate::{
     eng::{ext_of, Engine, RngSpec, R},
     gen::{ctx_strategy, Cfg, CtxSpec, SeedSpec, SlotSpec, Triple, TripleSpec, BITS},
     refimpl::Proof,
-    runner::{guarded, no_fixed, sub, CaseLog, PropertyDef, RunCtx, INCONCLUSIVE},
+    runner::{guarded, setup, SKIP, no_fixed, sub, CaseLog, PropertyDef, RunCtx, INCONCLUSIVE},
     tapx::{challenge_scalar, challenges, tapped},
 };
 
@@ -172,7 +172,7 @@ pub fn oracle(_ctx: &RunCtx, spec: &WipeSpec, log: &mut CaseLog) -> Result<(), S
     let t = Triple::<R>::build(&tspec)?;
     // a first, tapped run of the same deterministic case gives z (tap is disarmed for the captured runs)
     let (p0, ev) = tapped(|| guarded(|| t.prove()));
-    let p0 = p0?.map_err(|e| format!("prover refused a valid witness: {:?}", e))?;
+    let p0 = setup(p0, "the prover refused or panicked on a valid witness (C01's subject)")?;
     let ch = challenges(&ev);
     let z = challenge_scalar(&ch[1]);
     // patterns
@@ -229,7 +229,7 @@ pub fn oracle(_ctx: &RunCtx, spec: &WipeSpec, log: &mut CaseLog) -> Result<(), S
     alloc::capture_start();
     let proved = guarded(|| t.prove());
     let c = alloc::capture_stop();
-    let proof = proved?.map_err(|e| format!("{:?}", e))?;
+    let proof = proved?.map_err(crate::runner::skip_err)?;
     if proof.to_bytes() != p0.to_bytes() {
         return Err(format!("{} prover is not deterministic for a fixed RNG stream", INCONCLUSIVE));
     }
@@ -238,7 +238,7 @@ pub fn oracle(_ctx: &RunCtx, spec: &WipeSpec, log: &mut CaseLog) -> Result<(), S
     if cfg.m >= 2 && t.values[cfg.m - 1] < u64::MAX {
         let mut bad = t.promises.clone();
         bad[cfg.m - 1] = Some(t.values[cfg.m - 1] + 1);
-        let st_bad = RangeStatement::init(t.params.clone(), t.commitments.clone(), bad, None).map_err(|e| format!("{:?}", e))?;
+        let st_bad = RangeStatement::init(t.params.clone(), t.commitments.clone(), bad, None).map_err(crate::runner::skip_err)?;
         let mut tr = t.transcript();
         let mut rng = tspec.rng.make();
         alloc::capture_start();
@@ -259,11 +259,11 @@ pub fn oracle(_ctx: &RunCtx, spec: &WipeSpec, log: &mut CaseLog) -> Result<(), S
         let cs: Vec<RistrettoPoint> = vals
             .iter()
             .zip(t.blindings.iter())
-            .map(|(v, r)| t.params.pc_gens().commit(&Scalar::from(*v), r).map_err(|e| format!("{:?}", e)))
+            .map(|(v, r)| t.params.pc_gens().commit(&Scalar::from(*v), r).map_err(crate::runner::skip_err))
             .collect::<Result<_, _>>()?;
-        let st_big = RangeStatement::init(t.params.clone(), cs, t.promises.clone(), t.seed).map_err(|e| format!("{:?}", e))?;
+        let st_big = RangeStatement::init(t.params.clone(), cs, t.promises.clone(), t.seed).map_err(crate::runner::skip_err)?;
         let w_big = RangeWitness::init(vals.iter().zip(t.blindings.iter()).map(|(v, r)| CommitmentOpening::new(*v, r.clone())).collect())
-            .map_err(|e| format!("{:?}", e))?;
+            .map_err(crate::runner::skip_err)?;
         let mut with_big = secrets.iter().map(Secret::dup).collect::<Vec<_>>();
         with_big.push(Secret::new(format!("the out-of-range witness value [{}] (8-byte little-endian)", j), big.to_le_bytes()));
         with_big.extend(text_patterns(&format!("the out-of-range witness value [{}]", j), big));
@@ -291,19 +291,19 @@ pub fn oracle(_ctx: &RunCtx, spec: &WipeSpec, log: &mut CaseLog) -> Result<(), S
         alloc::capture_start();
         let r = guarded(|| R::verify(&mut ts, &sts, &ps, act).map(|masks| drop(masks)));
         let c = alloc::capture_stop();
-        r?.map_err(|e| format!("{:?}", e))?;
+        r?.map_err(crate::runner::skip_err)?;
         scan(&format!("verify_batch {:?} + drop of the returned masks", act), c, &secrets, &mut stats)?;
         drop(sts);
     }
     // ---- a recovering batch that FAILS after the first member's mask was computed
     if t.seed.is_some() && cfg.nm() > 1 {
-        let mut pf = Proof::parse_layout(&proof.to_bytes()).map_err(|e| format!("{:?}", e))?;
+        let mut pf = Proof::parse_layout(&proof.to_bytes()).map_err(crate::runner::skip_err)?;
         pf.s1 = (Scalar::from_bytes_mod_order(pf.s1) + Scalar::ONE).to_bytes();
-        let bad = RangeProof::<RistrettoPoint>::from_bytes(&pf.encode()).map_err(|e| format!("{:?}", e))?;
+        let bad = RangeProof::<RistrettoPoint>::from_bytes(&pf.encode()).map_err(crate::runner::skip_err)?;
         // (a) rejected by the final check; (b) an error inside the per-proof loop (undecodable point in the second member)
-        let mut pf2 = Proof::parse_layout(&proof.to_bytes()).map_err(|e| format!("{:?}", e))?;
+        let mut pf2 = Proof::parse_layout(&proof.to_bytes()).map_err(crate::runner::skip_err)?;
         pf2.a1 = crate::mutate::UNDECODABLE;
-        let bad2 = RangeProof::<RistrettoPoint>::from_bytes(&pf2.encode()).map_err(|e| format!("{:?}", e))?;
+        let bad2 = RangeProof::<RistrettoPoint>::from_bytes(&pf2.encode()).map_err(crate::runner::skip_err)?;
         for (which, second) in [("rejected by the final check", bad), ("error while processing the second member", bad2)] {
             for act in [VerifyAction::RecoverAndVerify, VerifyAction::RecoverOnly] {
                 let mut ts = [t.transcript(), t.transcript()];
@@ -350,7 +350,7 @@ pub fn oracle(_ctx: &RunCtx, spec: &WipeSpec, log: &mut CaseLog) -> Result<(), S
         drop(o);
         scan("drop(CommitmentOpening) whose blinding vector has spare capacity", alloc::capture_stop(), &with_stale, &mut stats)?;
         let w3 = RangeWitness::init(t.values.iter().zip(t.blindings.iter()).map(|(v, r)| CommitmentOpening::new(*v, roomy(r))).collect())
-            .map_err(|e| format!("{:?}", e))?;
+            .map_err(crate::runner::skip_err)?;
         let mut tr = t.transcript();
         let mut rng = tspec.rng.make();
         alloc::capture_start();
@@ -358,7 +358,7 @@ pub fn oracle(_ctx: &RunCtx, spec: &WipeSpec, log: &mut CaseLog) -> Result<(), S
         drop(w3);
         let c = alloc::capture_stop();
         if !r? {
-            return Err("prover refused a valid witness whose blinding vectors have spare capacity".into());
+            return Err(format!("{} the prover refused a valid witness whose blinding vectors have spare capacity (C01's subject)", SKIP));
         }
         scan("prove + drop(RangeWitness) with blinding vectors that have spare capacity", c, &with_stale, &mut stats)?;
         // the witness's vector of openings with spare capacity that held one more opening (moved out by the caller)
@@ -370,7 +370,7 @@ pub fn oracle(_ctx: &RunCtx, spec: &WipeSpec, log: &mut CaseLog) -> Result<(), S
             }
             ops.push(CommitmentOpening::new(extra_v, t.blindings[0].clone()));
             let moved_out = ops.pop();
-            let w4 = RangeWitness::init(ops).map_err(|e| format!("{:?}", e))?;
+            let w4 = RangeWitness::init(ops).map_err(crate::runner::skip_err)?;
             let mut pats = with_stale.iter().map(Secret::dup).collect::<Vec<_>>();
             pats.push(Secret::new("a witness value left in the spare capacity of the witness's vector of openings".into(), extra_v.to_le_bytes()));
             alloc::capture_start();
@@ -379,7 +379,7 @@ pub fn oracle(_ctx: &RunCtx, spec: &WipeSpec, log: &mut CaseLog) -> Result<(), S
             drop(moved_out);
             scan("drop(RangeWitness) whose vector of openings has spare capacity", c, &pats, &mut stats)?;
         }
-        let mk = ExtendedMask::assign(ext_of(cfg.ext), roomy(&t.blindings[0])).map_err(|e| format!("{:?}", e))?;
+        let mk = ExtendedMask::assign(ext_of(cfg.ext), roomy(&t.blindings[0])).map_err(crate::runner::skip_err)?;
         alloc::capture_start();
         drop(mk);
         scan("drop(ExtendedMask) whose vector has spare capacity", alloc::capture_stop(), &with_stale, &mut stats)?;
@@ -395,7 +395,7 @@ pub fn oracle(_ctx: &RunCtx, spec: &WipeSpec, log: &mut CaseLog) -> Result<(), S
             pats.push(Secret::new(format!("blinding factor [{}][0] of the witness that was overwritten", j), r[0].as_bytes().iter().copied()));
         }
         let mut w_old = RangeWitness::init(t.values.iter().zip(old_r.iter()).map(|(v, r)| CommitmentOpening::new(*v, r.clone())).collect())
-            .map_err(|e| format!("{:?}", e))?;
+            .map_err(crate::runner::skip_err)?;
         let mut o_old = CommitmentOpening::new(t.values[0], old_r[0].clone());
         let o_new = CommitmentOpening::new(t.values[0], t.blindings[0].clone());
         alloc::capture_start();
@@ -420,9 +420,9 @@ pub fn oracle(_ctx: &RunCtx, spec: &WipeSpec, log: &mut CaseLog) -> Result<(), S
             .values
             .iter()
             .zip(rs.iter())
-            .map(|(v, r)| t.params.pc_gens().commit(&Scalar::from(*v), r).map_err(|e| format!("{:?}", e)))
+            .map(|(v, r)| t.params.pc_gens().commit(&Scalar::from(*v), r).map_err(crate::runner::skip_err))
             .collect::<Result<_, _>>()?;
-        let st_h = RangeStatement::init(t.params.clone(), cs, t.promises.clone(), None).map_err(|e| format!("{:?}", e))?;
+        let st_h = RangeStatement::init(t.params.clone(), cs, t.promises.clone(), None).map_err(crate::runner::skip_err)?;
         let w_h = RangeWitness {
             openings: t.values.iter().zip(rs.iter()).map(|(v, r)| CommitmentOpening::new(*v, r.clone())).collect(),
             extension_degree: ext_of(cfg.ext),
@@ -440,7 +440,7 @@ pub fn oracle(_ctx: &RunCtx, spec: &WipeSpec, log: &mut CaseLog) -> Result<(), S
         drop(st_h);
         wipe(rs);
     }
-    let mask = ExtendedMask::assign(ext_of(cfg.ext), t.blindings[0].clone()).map_err(|e| format!("{:?}", e))?;
+    let mask = ExtendedMask::assign(ext_of(cfg.ext), t.blindings[0].clone()).map_err(crate::runner::skip_err)?;
     alloc::capture_start();
     let got = mask.blindings();
     drop(mask);
@@ -498,14 +498,14 @@ pub fn oracle(_ctx: &RunCtx, spec: &WipeSpec, log: &mut CaseLog) -> Result<(), S
         let last = cfg.ext - 1;
         pc.g_base_vec[last] = <RistrettoPoint as curve25519_dalek::traits::Identity>::identity();
         pc.g_base_compressed_vec[last] = pc.g_base_vec[last].compress();
-        let params = tari_bulletproofs_plus::range_parameters::RangeParameters::init(bits, cfg.cap, pc.clone()).map_err(|e| format!("{:?}", e))?;
+        let params = tari_bulletproofs_plus::range_parameters::RangeParameters::init(bits, cfg.cap, pc.clone()).map_err(crate::runner::skip_err)?;
         let cs: Vec<RistrettoPoint> = t
             .values
             .iter()
             .zip(t.blindings.iter())
-            .map(|(v, r)| pc.commit(&Scalar::from(*v), r).map_err(|e| format!("{:?}", e)))
+            .map(|(v, r)| pc.commit(&Scalar::from(*v), r).map_err(crate::runner::skip_err))
             .collect::<Result<_, _>>()?;
-        let st_deg = RangeStatement::init(params, cs, t.promises.clone(), t.seed).map_err(|e| format!("{:?}", e))?;
+        let st_deg = RangeStatement::init(params, cs, t.promises.clone(), t.seed).map_err(crate::runner::skip_err)?;
         let mut tr = t.transcript();
         let mut rng = tspec.rng.make();
         alloc::capture_start();
